@@ -167,13 +167,13 @@ def header_ops():
     )
 
 
-_cookie_value = st.one_of(st.sampled_from(["v", "", "a b", 'q"uote', "semi;colon", "é", "a=b", "x,y"]), st.text(alphabet=st.characters(max_codepoint=255), max_size=6))
+_cookie_value = st.one_of(st.sampled_from(["v", "", "a b", 'q"uote', "semi;colon", "é", "a=b", "x,y", "tok\n", "tok\r", "\ntok", "a\r\nSet-Cookie: x=1", '"a\r\nb"', "tok\x00", "tok\x0b", "tok\x85"]), st.text(alphabet=st.characters(max_codepoint=255), max_size=6))
 
 
 def cookie_lists():
     return st.lists(
         st.fixed_dictionaries(
-            {"name": st.sampled_from(["sid", "a", "k.1", "theme", "x_y"]), "value": _cookie_value},
+            {"name": st.sampled_from(["sid", "a", "k.1", "theme", "x_y", "sid\n", "$v", "a b", "n\r\nx"]), "value": _cookie_value},
             optional={"max_age": st.sampled_from([0, 60]), "expires": st.sampled_from([0, 3600]), "httponly": st.booleans(), "secure": st.booleans(),
                       "samesite": st.sampled_from(["lax", "strict", "none"]), "domain": st.sampled_from(["example.com"]), "delete": st.booleans()},
         ),
@@ -255,4 +255,5 @@ def response_recipes(draw, kinds=("empty", "plain", "html", "json", "redirect", 
     return r
 
 
-RANGE_HEADERS = [None, None, "bytes=0-0", "bytes=1-3", "bytes=-2", "bytes=2-", "bytes=0-0,2-3", "bytes=0-1,3-", "bytes=9999-", "bytes=3-1", "bogus", "bytes=", ""]
+RANGE_HEADERS = [None, None, "bytes=0-0", "bytes=1-3", "bytes=-2", "bytes=2-", "bytes=0-0,2-3", "bytes=0-1,3-", "bytes=9999-", "bytes=3-1", "bogus", "bytes=", "",
+                 "bytes=1-\xff", "bytes=0-1\xe9", "\xfcnits=0-1", "bytes=0-1,\xa0 2-3"]
